@@ -72,6 +72,7 @@ func (m *SeqMon[T]) CheckAll(full bool) {
 		if !eqSlices(vs, m.Model) {
 			c.Fail("values", "", "%s.Values() = %s, abstract sequence = %s", m.Name, short(vs), short(m.Model))
 		}
+		ruin(vs)
 		c.Count("obs:Values", 1)
 		if n <= 256 {
 			// every index, starting somewhere in the middle and wrapping: an
